@@ -180,6 +180,15 @@ def core_det(tier):
         for b in (7, 8, 9, 12):
             add(2, S.box_geom(2, x0=[2.0, -3.0]), _quad(2, r), {"max_fun_evals": b}, tags=["budget"])
         add(3, S.box_geom(3, x0=[2.0, -3.0, 1.0]), _quad(3, r), {"max_fun_evals": 11}, tags=["budget"])
+        # searching right next to a face of a box whose bounds are not multiples of any search-mesh size, through
+        # refine / expand cycles of the mesh
+        for j in range(3 if tier == "quick" else 8):
+            g = {"lb": [-1.0, -1.0, -1.0], "ub": [2.0, 2.0, 2.0], "plb": [-0.5, -0.5, -0.5], "pub": [1.3, 1.3, 1.3],
+                 "x0": [0.9, -0.6, 1.1]}
+            add(3, g, {"family": "facevalley", "c": 1.6}, {"max_fun_evals": 170}, tags=["facevalley", "outside"])
+        # deterministic target with an explicit base noise magnitude (documented option, used for GP regularisation)
+        add(2, S.box_geom(2, x0=[3.0, -2.0]), _quad(2, r), {"noise_size": 1e-2, "max_fun_evals": 70}, tags=["det_noise_size"])
+        add(1, S.box_geom(1, x0=[-3.0]), _quad(1, r), {"noise_size": 1e-3, "max_fun_evals": 50}, tags=["det_noise_size"])
         if tier == "thorough":
             for D in (4, 5):
                 x0 = [round(r.uniform(-4, 4), 3) for _ in range(D)]
@@ -249,6 +258,14 @@ def core_noisy(tier):
                 {"max_fun_evals": b, "noise_final_samples": 10}, tags=["auto", "budget", "reserve_clamped"])
         add(2, S.box_geom(2, x0=[2.0, 2.0]), _quad(2, r, cond=5.0), {"mode": "specified", "sigma": 1.0, "sd_kind": "hetero"},
             {"max_fun_evals": 37, "noise_final_samples": 10}, tags=["specified", "budget", "reserve_clamped"])
+        # specified noise where a re-observed point comes out markedly lower, so that merged records become the
+        # incumbent / recorded iterates (complete polls re-visit the point opposite to a successful move)
+        add(2, S.box_geom(2, -3, 3, -2, 2, x0=[1.0, 1.0]), _quad(2, r, mn=[6.0, 5.0], cond=4.0),
+            {"mode": "specified", "sigma": 0.5, "sd_kind": "const", "repeat_drop": 4.0},
+            {"noise_final_samples": 3, "max_fun_evals": 130, "complete_poll": True}, tags=["specified", "outside", "repeats", "repeat_drop"])
+        add(3, S.box_geom(3, -3, 3, -2, 2, x0=[1.0, 1.0, -1.0]), _quad(3, r, mn=[6.0, 5.0, 0.0], cond=4.0),
+            {"mode": "specified", "sigma": 0.5, "sd_kind": "const", "repeat_drop": 4.0},
+            {"noise_final_samples": 3, "max_fun_evals": 160, "complete_poll": True}, tags=["specified", "outside", "repeats", "repeat_drop"])
     return out
 
 
